@@ -176,7 +176,7 @@ def run_rdump(files, lay, cfg, mode, compiled, tmp):
             case["parts"].append([{k: v for k, v in r.items() if not k.startswith("_")} for r in recs])
         return case
     # stdout modes
-    argv += ["-m", mode] if mode != "list" else ["-l"]
+    argv += ["-m", mode] if mode not in ("list", "text") else (["-l"] if mode == "list" else [])    # "text": rdump's default output
     case["listed"], case["processed"] = [], -1
     buf = io.BytesIO()
     saved = sys.stdout
@@ -215,6 +215,10 @@ def run_rdump(files, lay, cfg, mode, compiled, tmp):
                         continue
                 i = int(row[hdr.index("n")]) if hdr and "n" in hdr else 0
                 recs.append({"id": i, "d": "-", "fields": [], "src": "-", "cls": "-", "tsd": "-"})
+        elif mode == "text":
+            for line in text.splitlines():
+                m = re.search(r"\bn=(\d+)", line)
+                recs.append({"id": int(m.group(1)) if m else 0, "d": "-", "fields": [], "src": "-", "cls": "-", "tsd": "-"})
         elif mode == "list":
             for m in re.finditer(r'RecordDescriptor\("([^"]+)", \[\n(.*?)\]\)', text, re.S):
                 case["listed"].append({"name": m.group(1), "fields": [n for n in re.findall(r'\("[^"]+", "([^"]+)"\)', m.group(2)) if not n.startswith("_")]})
@@ -247,7 +251,7 @@ def run(tier):
     for k, (lay, cfg) in enumerate(uni):
         modes = [("stream", True), ("stream", False)]
         if k % 3 == 0:
-            modes += [(m, k % 2 == 0) for m in ("jsonlines", "csv", "line")]
+            modes += [(m, k % 2 == 0) for m in ("jsonlines", "csv", "line", "text")]
         if k % 3 == 1:
             modes += [("list", k % 2 == 0)]
         for mode, compiled in modes:
